@@ -87,6 +87,37 @@ func gen(tier string, r *lib.Rand, emit func(string)) {
 			emit(alloclib.AllocCase(p, alloclib.BadCfgs[r.Intn(len(alloclib.BadCfgs))]))
 		}
 	}
+	// (b') histories: passes on a program object, clones of it, allocation of the clones under
+	// another configuration, allocation of the original after its clone
+	hist := func(p alloclib.Prog, k int) {
+		ca, cb := good[k%len(good)], good[(k+1+k/len(good))%len(good)]
+		emit(alloclib.HistoryCase(p, ca, cb, alloclib.Histories[k%len(alloclib.Histories)]))
+	}
+	hk := 0
+	emit(alloclib.HistoryCase(alloclib.Prog{}, good[0], good[1], []string{"a", "c", "b"}))
+	emit(alloclib.HistoryCase(alloclib.Prog{}, good[0], good[1], []string{"i", "c", "b"}))
+	for n := 1; n <= 4; n++ {
+		alloclib.OpLists(n, func(ops addchain.Program) {
+			p := alloclib.Decompiled(ops)
+			for _, h := range alloclib.Histories {
+				if n <= 3 || hk%5 == 0 {
+					emit(alloclib.HistoryCase(p, good[0], good[1], h))
+				}
+				hk++
+			}
+		})
+	}
+	for i := 0; i < nrand; i++ {
+		hist(alloclib.RandomProgram(r, r.Range(1, maxlen), []int{0, 10, 40}[r.Intn(3)]), i)
+		if i%3 == 0 {
+			if p, _, ok := alloclib.Translated(alloclib.RandomScript(r, r.Range(1, 8))); ok {
+				hist(p, i+1)
+			}
+			hist(alloclib.IllFormed(r, alloclib.RandomProgram(r, r.Range(1, 10), 30)), i+2)
+			emit(alloclib.HistoryCase(alloclib.RandomProgram(r, r.Range(1, 10), 20), good[r.Intn(len(good))],
+				alloclib.BadCfgs[r.Intn(len(alloclib.BadCfgs))], alloclib.Histories[r.Intn(len(alloclib.Histories))]))
+		}
+	}
 	// (c) malformed: ill-formed programs, bad configurations, arbitrary identifiers
 	pool := []string{"x", "z", "t0", "t1", "t2", "", "u"}
 	for i := 0; i < nrand; i++ {
@@ -124,6 +155,8 @@ func oracle(c, res string) string {
 		return alloclib.CheckAllocation(c, res, false)
 	case strings.HasPrefix(c, "interp "):
 		return alloclib.CheckInterp(c, res)
+	case strings.HasPrefix(c, "history "):
+		return alloclib.CheckHistory(c, res)
 	case strings.HasPrefix(c, "sharingdiff "):
 		return "allocation depends on operand object sharing"
 	}
@@ -140,6 +173,6 @@ func nontrivial(c, res string) bool {
 }
 
 func main() {
-	lib.Main(lib.Prop{ID: "C05", Gen: gen, Run: run, Oracle: oracle, Nontrivial: nontrivial,
+	lib.Main(lib.Prop{ID: "C05", Gen: gen, Run: run, Oracle: oracle, Nontrivial: nontrivial, Neighbours: alloclib.Neighbours,
 		PanicClass: func(v interface{}) string { return "other" }})
 }
